@@ -460,7 +460,7 @@ class Ctx:
         if unknown and not res.failed and not unwind_fail:
             res.status = "inconclusive"
             res.reason += "status UNKNOWN for %d properties (%s ...); " % (len(unknown), unknown[0])
-        if unwind_fail:
+        if unwind_fail and not res.failed:
             res.status = "inconclusive"
             res.reason += "unwinding bound too small: %s; " % ",".join(unwind_fail[:4])
             return
